@@ -339,6 +339,9 @@ def run(tier, seed):
     # glue code (DESIGN 11.7, third round): helpers::signal_str, the number -> name table behind "SIGxxx" in status lines,
     # read from the source and compared with the Linux x86_64 numbering
     gen_tie.gate(chk, ['signal_str'], gate, family="glue")
+    # fifth round: the `leaked` argument of the create_execution_result call in run_test_inner / run_setup_script_inner
+    # IS the value detect_fd_leaks returned (nothing else is mixed into the leak verdict)
+    gen_tie.gate(chk, ['leak_verdict_unchanged'], gate, family="glue")
     binary, err = vlib.build_harness()
     if binary is None:
         chk.violation("broken-obligation", "harness-build", dict(error=err), no_input=True)
